@@ -137,6 +137,9 @@ func parserTrace(e *env) error {
 		if f%10 == 0 {
 			ml = maxLines * 3
 		}
+		if f%25 == 3 {
+			ml = maxLines * 14 // files well beyond the scanner's 4096-byte buffer
+		}
 		lines := genFile(e, ml, bad, 5, 10, 10, 4)
 		cc := newTraceConcretiser(e, 5, 10, 10, 4)
 		pol, k := "continue", 0
